@@ -81,6 +81,7 @@ func boundsObligations(r *Report, rule string, fn *ssa.Function, assume func(*BC
 	c := NewBCtx(fn)
 	if assume != nil {
 		assume(c)
+		c.induction() // lower bounds of loop variables may depend on the assumed bounds
 	}
 	for _, s := range c.IndexSites() {
 		total++
